@@ -10,6 +10,7 @@ that exhaustion is reported as too-many-retries when every attempt fails.
 import SeliumModel.Client.KeepAlive
 import SeliumModel.Client.KeepAliveSM
 import SeliumModel.Client.SharedConn
+import SeliumModel.Lemmas.Backoff
 
 namespace Selium.KeepAlive
 open Selium.Gen.KeepAlive
@@ -82,6 +83,25 @@ theorem c12_exhausted_outage_used_the_whole_budget (m : Nat) (rs : List Attempt)
     | ok => rw [hr] at h; simp at h
     | fatal => rw [hr] at h; simp at h
     | recoverable => rw [hr] at h; simp only at h ⊢; rw [ih rs.tail h]
+
+/-- "for all backoff configurations": the attempts of one outage are the items of the strategy's schedule (both wrappers
+    call `attempts.next()` until it ends), and whatever the law, step, factor, cap — also where the delay saturates — the
+    schedule has exactly the configured number of items (model `Backoff.lean`, tied to the code by the `backoff` suite) -/
+theorem c12_every_backoff_configuration_supplies_the_whole_budget (c : Selium.Backoff.Cfg) :
+    (Selium.Backoff.schedule c).length = c.maxAttempts := by
+  unfold Selium.Backoff.schedule
+  rw [Selium.Backoff.take_spec]
+  simp
+
+/-- … so an outage in which every attempt of the schedule fails recoverably ends in too-many-retries after exactly the
+    configured number of attempts, for every configuration -/
+theorem c12_exhaustion_after_the_whole_schedule (c : Selium.Backoff.Cfg) (rs : List Attempt)
+    (hall : ∀ i, i < c.maxAttempts → rs.getD i .recoverable = .recoverable) :
+    reconnect (Selium.Backoff.schedule c).length rs = (Outcome.tooManyRetries, c.maxAttempts) := by
+  rw [c12_every_backoff_configuration_supplies_the_whole_budget]
+  have h1 := (c12_exhaustion_iff c.maxAttempts rs).mpr hall
+  have h2 := c12_exhausted_outage_used_the_whole_budget c.maxAttempts rs h1
+  exact Prod.ext h1 h2
 
 /-- an unrecoverable error is reported immediately: at the first attempt that hits it, without using the rest
     of the budget -/
@@ -445,3 +465,5 @@ end Selium.SharedConn
 #print axioms Selium.SharedConn.run_keeps_working
 #print axioms Selium.SharedConn.c12_all_siblings_recover
 #print axioms Selium.SharedConn.c12_unconditional_redial_cuts_siblings
+#print axioms Selium.KeepAlive.c12_every_backoff_configuration_supplies_the_whole_budget
+#print axioms Selium.KeepAlive.c12_exhaustion_after_the_whole_schedule
